@@ -22,6 +22,7 @@ from vlib import coq_bool, coq_list
 PID = "C20"
 F_RB = "C20-rightbound-mark"
 F_MUT = "C20-openrange-rewrites-index"
+F_GRAM = "C20-bloom-gram-phrase"
 OPS = {"=": "Ceq", "!=": "Cne", "<": "Clt", "<=": "Cle", ">": "Cgt", ">=": "Cge"}
 
 
@@ -121,13 +122,150 @@ def has_null_mid_int(t):
     return any(t["isint"][p] and any(row[p] is None for row in t["keys"]) for p in range(1, max(u - 1, 1)))
 
 
+
 # ---------------------------------------------------------------------------------------------
+# bloom-filter skip index stream
+
+def batoms(c):
+    if c["op"] in ("and", "or"):
+        return batoms(c["args"][0]) + batoms(c["args"][1])
+    return [c]
+
+
+def bloom_tree(c, leaf, counter):
+    """render the condition as an `sk` term / evaluate it; leaf(i, atom) handles the i-th atom (left to right)"""
+    if c["op"] in ("and", "or"):
+        a = bloom_tree(c["args"][0], leaf, counter)
+        b = bloom_tree(c["args"][1], leaf, counter)
+        return ("and" if c["op"] == "and" else "or", a, b)
+    i = counter[0]
+    counter[0] += 1
+    return ("atom", leaf(i, c))
+
+
+def tree_coq(t):
+    if t[0] == "atom":
+        return "(SAtom %s)" % t[1]
+    return "(%s %s %s)" % ("SAnd" if t[0] == "and" else "SOr", tree_coq(t[1]), tree_coq(t[2]))
+
+
+def tree_fold(t, f):
+    if t[0] == "atom":
+        return f(t[1])
+    a, b = tree_fold(t[1], f), tree_fold(t[2], f)
+    return (a and b) if t[0] == "and" else (a or b)
+
+
+def bloom_seg_tree(t, seg, corrected=False):
+    """per-segment expression with the measured single-predicate hits. corrected: a gram / token-less phrase (finding
+    C20-bloom-gram-phrase) counts as hit where a row of the segment matches that predicate."""
+    f0 = t["schema"][0]
+
+    def leaf(i, a):
+        ob = t["atoms"][i]
+        fc = a["col"] == f0
+        im = a["op"] == "match"
+        h = True
+        if ob.get("hits"):
+            h = ob["hits"][seg] != 0
+            if corrected and (ob.get("gram") or ob.get("notoken")) and ob["amatch"][seg]:
+                h = True
+        return (fc, im, a["col"] in t["schema"], h)
+    return bloom_tree(t["in"]["cond"], leaf, [0])
+
+
+def bloom_predict(tree):
+    whole = tree_fold(tree, lambda a: a[3] if (a[0] and a[1]) else True)
+    return tree_fold(tree, lambda a: whole if a[2] else True)
+
+
+def bloom_stream(ck, cases):
+    """direct oracle + model correspondence for the bloom cases; returns (verdicts, broken list)"""
+    verdicts = {"known_gram": 0, "violation": 0}
+    broken = []
+    with_reader = [t for t in cases if t["schema"] and not t["err"] and all(k in (0, 1) for k in t["kept"])]
+    # model correspondence through coqc
+    shard = 400
+    files = []
+    for i in range(0, len(with_reader), shard):
+        chunk = with_reader[i:i + shard]
+        items = []
+        for t in chunk:
+            segs = []
+            for sgi in range(t["segcnt"]):
+                tr = bloom_seg_tree(t, sgi)
+                term = tree_coq(("atom", None)) if False else tree_coq(_coq_atoms(tr))
+                segs.append("(%s, %s)" % (term, coq_bool(t["kept"][sgi] == 1)))
+            items.append(coq_list(segs))
+        txt = ("From Coq Require Import List Bool. From OG Require Import C20.BloomModel C20.Corr.\nImport ListNotations.\n"
+               "Definition cases : list (list (sk katom * bool)) := [\n%s\n].\n"
+               "Definition R := Eval vm_compute in bloom_results cases.\nPrint R.\n") % ";\n".join(items)
+        files.append(("b%d" % (i // shard), txt))
+    mism = {}
+    for idx, (rc, o) in enumerate(ck.coq_eval_many(files, timeout=900)):
+        r = parse_results(o) if rc == 0 else None
+        if r is None:
+            broken.append(("model evaluation failed on bloom shard %d: %s" % (idx, o[-300:]), None))
+            continue
+        for k, pred in r:
+            mism[id(with_reader[idx * shard + k])] = pred
+    for t in cases:
+        bad = bool(t["oracle"])
+        if bad:
+            explained = False
+            if t["schema"] and not t["err"]:
+                # does the finding's signature explain every pruned matching segment?
+                explained = any((ob.get("gram") or ob.get("notoken")) and ob["col"] == t["schema"][0] for ob in t["atoms"]) and \
+                    all(bloom_predict(bloom_seg_tree(t, sgi, corrected=True)) for sgi in range(t["segcnt"]) if t["match"][sgi])
+            if explained and ck.match_finding(F_GRAM):
+                ck.known_finding(F_GRAM, "a segment with a matching row is pruned: the reader looks up a multi-token gram hash (or no token) that the writer never inserts")
+                verdicts["known_gram"] += 1
+                continue
+            verdicts["violation"] += 1
+            if verdicts["violation"] <= 3:
+                ck.violation({"kind": "direct-oracle", "what": t["oracle"][:4], "in": t["in"], "case": t["bid"], "stream": "bloom",
+                              "kept": t["kept"], "ranges": t["ranges"], "match": t["match"], "schema": t["schema"], "err": t["err"]})
+        elif id(t) in mism:
+            broken.append(("correspondence C20 bloom: MayBeInFragment of the compound condition differs from the model's "
+                           "expression evaluation over the measured single-predicate hits (case %d: model %s, implementation %s)"
+                           % (t["bid"], mism[id(t)], t["kept"]), t))
+    return verdicts, broken
+
+
+def _coq_atoms(tr):
+    if tr[0] == "atom":
+        a = tr[1]
+        return ("atom", "(%s, %s, %s, %s)" % tuple(coq_bool(x) for x in a))
+    return (tr[0], _coq_atoms(tr[1]), _coq_atoms(tr[2]))
+
+# ---------------------------------------------------------------------------------------------
+
+def explained_by_rb(t, e):
+    nf = t["nfrag"]
+    probes = [[f, f + 1] for f in range(nf)] + [list(p) for p in t["in"]["probes"]]
+    bad_probes = [j for j, p in enumerate(probes) if j < len(t["maybe"] or []) and t["maybe"][j] == 0 and any(t["match"][p[0]:p[1]])]
+    covered = lambda f: any(a <= f < b for a, b in t["ranges"])
+    bad_frags = [f for f in range(nf) if t["match"][f] and not covered(f)] if not t["scanerr"] else []
+    if not bad_probes and not bad_frags:
+        return False
+    for norm in (0, 1):
+        cur, rep = e[norm], e[2 + norm]
+        ok = all(j < len(cur[2]) and j < len(rep[2]) and (not cur[2][j]) and rep[2][j] for j in bad_probes)
+        if sig_mut_input(t) and bad_probes:
+            # the rewriting of index values persists across the calls of one Scan (not modelled): judge by the single calls
+            pass
+        else:
+            ok = ok and all(f < len(cur[1]) and f < len(rep[1]) and (not cur[1][f]) and rep[1][f] for f in bad_frags)
+        if ok:
+            return True
+    return False
+
 
 def run_harness(ck, binp, args, timeout=1200, env=None):
     rc, out = ck.run([binp] + args, timeout=timeout, env=env)
     cases = []
     for l in out.splitlines():
-        if l.startswith('{"id"'):
+        if l.startswith('{"id"') or l.startswith('{"bid"'):
             try:
                 cases.append(json.loads(l))
             except ValueError:
@@ -224,15 +362,17 @@ def classify(ck, cases, tag):
         what = "; ".join(t["oracle"][:2])
         rec = {"kind": "direct-oracle", "what": t["oracle"], "in": t["in"], "case": i, "stream": tag,
                "ranges": t["ranges"], "match": t["match"], "scanerr": t["scanerr"]}
+        done = False
         if sig2[i] and mut_evidence(t):
             if ck.match_finding(F_MUT):
                 ck.known_finding(F_MUT, "a fragment with a matching row is pruned / the scan panics because an index value was rewritten in place")
                 verdicts["known_mut"] += 1
-                continue
-        elif e is not None and len(e) == 4 and used_keys(t) >= 2 and \
-                (e[0][0] == 0 or e[1][0] == 0) and e[2][0] != 0 and e[3][0] != 0:
-            # the implementation behaves exactly as the model of today's checkRangeRightBound (returns mark) on this
-            # case and differently from the repaired model (returns res)
+                done = True
+        if done:
+            continue
+        if e is not None and len(e) == 4 and used_keys(t) >= 2 and explained_by_rb(t, e):
+            # every pruned matching fragment / false may_be is also pruned / false in the model of today's
+            # checkRangeRightBound (returns mark) and kept / true in the repaired model (returns res)
             if ck.match_finding(F_RB):
                 ck.known_finding(F_RB, "a fragment with a matching row is pruned: the accumulated mark is dropped by checkRangeRightBound")
                 verdicts["known_rb"] += 1
@@ -257,9 +397,9 @@ def main(ck):
                               "no axioms (Print Assumptions: closed)", "Go harness cmd/c20 (generator, brute-force oracle, "
                               "order-preserving encodings)", "python driver props/C20/run.py (signatures, variant detection)"]
     ck.coq_audit(["C20"])
-    ok = ck.coq_build(["C20/Props.vo", "C20/Refuted.vo", "C20/Corr.vo"])
+    ok = ck.coq_build(["C20/Props.vo", "C20/BloomProps.vo", "C20/Refuted.vo", "C20/Corr.vo"])
     if ok:
-        ck.coq_props(["C20/Props.v", "C20/Refuted.v"])
+        ck.coq_props(["C20/Props.v", "C20/BloomProps.v", "C20/Refuted.v"])
     binp = ck.go_build("./cmd/c20", "c20")
     if not binp or not ok:
         return
@@ -271,6 +411,7 @@ def main(ck):
         files = sorted(glob.glob(os.path.join(ck.verif, "corpus", PID, "*.json")))
         n = 1500 if ck.tier == "quick" else 20000
     cases = []
+    bcases = []
     if files:
         rc, cs, out = run_harness(ck, binp, ["replay"] + files)
         if rc != 0 or len(cs) != len(files):
@@ -278,14 +419,40 @@ def main(ck):
             return
         for t, f in zip(cs, files):
             t["corpus"] = os.path.basename(f)
-        cases += cs
+        cases += [t for t in cs if "id" in t]
+        bcases += [t for t in cs if "bid" in t]
     ncorpus = len(cases)
+    if n:
+        nb = 600 if ck.tier == "quick" else 8000
+        rc, cs, out = run_harness(ck, binp, ["bloom", str(nb)])
+        if rc != 0 or len(cs) != nb:
+            ck.broken.append("harness c20 bloom failed rc=%d cases=%d/%d: %s" % (rc, len(cs), nb, out[-400:]))
+            return
+        bcases += cs
     if n:
         rc, cs, out = run_harness(ck, binp, ["gen", str(n)])
         if rc != 0 or len(cs) != n:
             ck.broken.append("harness c20 failed rc=%d cases=%d/%d: %s" % (rc, len(cs), n, out[-400:]))
             return
         cases += cs
+    bverd, bbroken = bloom_stream(ck, bcases) if bcases else ({"known_gram": 0, "violation": 0}, [])
+    for msg, t in bbroken[:3]:
+        ck.broken.append(msg)
+    if bbroken and not ck.violations:
+        t = bbroken[0][1]
+        ck.nofail_detail = {"kind": "correspondence", "explanation": bbroken[0][0], "in": t["in"] if t else None,
+                            "implementation": {k: t[k] for k in ("kept", "ranges", "schema", "atoms")} if t else None}
+    ck.cov["bloom"] = {"evaluations": len(bcases), "with_reader": sum(1 for t in bcases if t["schema"]),
+                       "distinct_nontrivial": len(set(json.dumps(t["in"], sort_keys=True) for t in bcases if t["nontrivial"])),
+                       "with_nulls": sum(1 for t in bcases if any(v is None for v in t["in"]["content"])),
+                       "gram_or_tokenless_phrases": sum(1 for t in bcases if any(a.get("gram") or a.get("notoken") for a in t["atoms"])),
+                       "verdicts": bverd,
+                       "rule": "string column(s) with nulls / empty strings / repeated tokens cut into segments (boundaries inside null runs), "
+                               "bloom filter files written by GenBloomFilterData, conditions of MATCHPHRASE / = on indexed and non-indexed "
+                               "columns under AND/OR; non-trivial = a segment matches and a segment is pruned"}
+    if not cases:
+        ck.cov["evaluations"] = len(bcases)
+        return
     r = classify(ck, cases, "c")
     if r is None:
         return
@@ -293,6 +460,8 @@ def main(ck):
         r["rb"], r["norm"], r["mismatch_counts"], r["verdicts"]))
     ck.log(ck.notes[-1])
     # stale findings (open entries that no longer reproduce) are reported, not failed
+    if ck.match_finding(F_GRAM) and bcases and bverd["known_gram"] == 0:
+        ck.notes.append("open finding %s did not reproduce in this run (stale?)" % F_GRAM)
     for fid, key in ((F_RB, "known_rb"), (F_MUT, "known_mut")):
         if ck.match_finding(fid) and r["verdicts"][key] == 0:
             ck.notes.append("open finding %s did not reproduce in this run (stale?)" % fid)
@@ -336,7 +505,7 @@ def main(ck):
             hist["tags"][i["tag"]] = hist["tags"].get(i["tag"], 0) + 1
         if t["nontrivial"]:
             nontriv.add(json.dumps([i["types"], i["rows"], i["sizes"], i["cond"]], sort_keys=True))
-    ck.cov["evaluations"] = len(cases)
+    ck.cov["evaluations"] = len(cases) + len(bcases)
     ck.cov["corpus_cases"] = ncorpus
     ck.cov["distinct_nontrivial"] = len(nontriv)
     ck.cov["rule"] = ("sorted key records (1..3 key columns of int/float/string/bool, duplicates, nulls, boundary integers, fragment "
